@@ -90,3 +90,10 @@ label = s:unix:Linux:
 sig = *:64:0:*:*,*:::0" in
   known_db t = false /\ (exists d, spec_load t = VOk d /\ load t = Some d /\ table_counts (db_tcp_request d) = (1, 1)%nat).
 Proof. vm_compute. split; [reflexivity|]. eexists; repeat split; reflexivity. Qed.
+
+(* ---------- the bundled file and the domain of the text-level theorem ---------- *)
+Lemma bundled_text_domain :
+  ascii_edges bundled_text = true /\ known_db bundled_text = true /\ known_unknown_item bundled_text = false /\
+  ascii_edges bundled_text_plain = true /\ known_db bundled_text_plain = false /\
+  length (filter lossy_line bundled_lines) = 1%nat.
+Proof. vm_compute. repeat split; reflexivity. Qed.
